@@ -28,4 +28,7 @@ mk c14-reload-no-store      C14 $S/store.go '/func (s \*Store) loadDatasets/,/^}
 mk c03-scope-wrong-id       C03 $S/store.go '/func (s \*Store) DatasetsToInternalIDs/,/^}/ s|for _, ds := range datasets {|for _, ds := range datasets[:len(datasets)-1] {|' 'DatasetsToInternalIDs'
 mk c04-txn-commits-own-ids  C04 $S/store.go 's|if err := ds.store.commitIDTxn(); err != nil {|_ = ds\n\t\tif err := s.commitIDTxn(); err != nil {|' 'the-id-transaction-committed-is-that-of-the-written-datasets-own-store'
 mk c02-token-below-examined C02 $S/dataset.go 's|^\t\treturn lastSeen + 1, nil$|\t\treturn lastSeen, nil|' 'token'
+mk c07-ctx-stale-deleted-lookup C07 $S/store.go 's|datasetDeleted := s.deletedSet()\[currentDatasetID\]|datasetDeleted := s.deletedDatasets[currentDatasetID]|' 'versions-of-deleted-datasets-are-never-candidates'
+mk c07-ctx-stale-deleted-query  C07 $S/store.go '0,/if s.deletedSet()\[datasetID\] || !datasetIncluded {/ s|if s.deletedSet()\[datasetID\] \|\| !datasetIncluded {|if s.deletedDatasets[datasetID] \|\| !datasetIncluded {|' 'GetRelatedAtTime'
+mk c07-ctx-parent-of-parent     C07 $S/store.go '/^func NewContextualStore/,/^}/ s|if store.parent != nil {|if store.parent == nil {|' 'a-contextual-store-filters-with-the-deleted-set-published'
 git -C /repo worktree remove --force "$wt"
